@@ -75,6 +75,13 @@ def make_case(seed, i, force_end=None):
     state = pkg
     files0 = M.render_tree(state, "/w")
     M.add_clutter(files0, rng.fork("clutter"))
+    # a package that lies next to the main package without being referenced (yet): nobody watches it at the start
+    lib_later = rng.fork("liblater").chance(0.3)
+    if lib_later:
+        files0["/w/lib_later/_package.yml"] = "namespace: LibLater\n"
+        files0["/w/lib_later/a_first.yml"] = "LaterBase: !record\n  fields:\n    id: int\n"
+        files0["/w/lib_later/b_more.yml"] = "LaterTag: !enum\n  values:\n    - one\n    - two\n"
+        files0["/w/lib_later/c_more.yml"] = "LaterPair: !record\n  fields:\n    left: LaterBase\n    right: LaterTag\n"
     cur = dict(files0)
     edits, log = [], []
     n_edits = rng.randint(1, 6)
@@ -324,6 +331,22 @@ def make_case(seed, i, force_end=None):
         p = rng.choice(mfs)
         edits.append({"kind": "write", "path": p, "data": cur[p] + "\nOops: !record\n  fields: [\n", "steps": 1})
         log.append("final state invalid")
+    man0 = cur.get("/w/pkg/_package.yml", "")
+    if lib_later and not end_invalid and rng.fork("uselater").chance(0.6) and "../lib_later" not in man0 and (("imports:\n" in man0) or ("imports:" not in man0)):
+        # the main package starts to use the package next door, including a type that is not there yet (the generation that
+        # first references - and first reads - that directory fails), and the missing type is then added there as the last save
+        ur = rng.fork("uselater2")
+        mfs = model_files_recursive(cur)
+        if mfs:
+            man = man0.replace("imports:\n", "imports:\n  - ../lib_later\n", 1) if "imports:\n" in man0 else man0.replace("\n", "\nimports:\n  - ../lib_later\n", 1)
+            q = ur.choice(mfs)
+            first = [{"kind": "write" if ur.chance(0.5) else "atomic", "path": "/w/pkg/_package.yml", "data": man, "steps": 1},
+                     {"kind": "write" if ur.chance(0.5) else "atomic", "path": q, "data": cur[q] + "\nZqUsesLater: !record\n  fields:\n    base: LibLater.LaterBase\n    later: LibLater.LaterExtra\n", "steps": ur.randint(1, 2)}]
+            ur.shuffle(first)
+            edits += first
+            lp = "/w/lib_later/" + ur.choice(["a_first.yml", "a_first.yml", "c_more.yml"])
+            edits.append({"kind": "write" if ur.chance(0.5) else "atomic", "path": lp, "data": cur[lp] + "\nLaterExtra: !record\n  fields:\n    v: int\n", "steps": 1})
+            log.append("import ../lib_later and use LibLater.LaterExtra (in %s), which is then added in %s" % (q, lp))
     # schedule / fault swarm
     sched = {
         "gpolicy": rng.weighted([("rtc", 12), ("sticky", 35), ("pct", 30), ("starve", 23)]),
